@@ -3,6 +3,7 @@ import CssVerif.Lemmas.SelTotal
 import CssVerif.Lemmas.MediaTotal
 import CssVerif.Lemmas.TokDom
 import CssVerif.Lemmas.ParseSteps
+import CssVerif.Lemmas.StructLocal
 import CssVerif.Props.C05
 import CssVerif.Props.C04
 /-!
@@ -130,6 +131,26 @@ theorem parse_kernels_total (text : Proto.Cps) (doC : Bool) :
     · exact ⟨_, rfl⟩
     · rename_i hu; exact absurd hu hs
 
+/-- T1.3' locality: the dispatcher hands its sub-parsers (selector list, media list, property value, the other
+at-rules, `@namespace`) only lists of tokens drawn from the token list it is parsing — two oracles that agree on all
+such lists give the same `cssRules`, at every nesting depth of `@media`. So the quantification "every list of tokens
+drawn from the stream" in `parse_kernels_total` (c), (d) covers every call the dispatcher makes, and what a sub-parser
+would do on any other list (raise, hang, answer differently) cannot reach the result. -/
+theorem dispatcher_consults_stream_only (O₁ O₂ : Struct.Oracle) (M : List Proto.Cps) (ts : List Struct.Tok)
+    (h : StructLocal.AgreeOn O₁ O₂ ts) : Struct.parseSheet O₁ M ts = Struct.parseSheet O₂ M ts :=
+  StructLocal.parseSheet_local O₁ O₂ M ts h
+
+/-- … in particular the composed parse of a text does not depend on how the opaque sub-parsers behave off the
+stream: `ext₁`, `ext₂` need to agree only on lists of stream tokens -/
+theorem composed_parse_local (ext₁ ext₂ : Struct.Oracle) (M : List Proto.Cps) (text : Proto.Cps) (doC : Bool)
+    (h : StructLocal.AgreeOn ext₁ ext₂ (ParseAll.structToks (ParseAll.stream text doC))) :
+    ParseAll.parseText ext₁ M text doC = ParseAll.parseText ext₂ M text doC := by
+  unfold ParseAll.parseText
+  apply StructLocal.parseSheet_local
+  intro l hl
+  obtain ⟨h1, _, _, h4, h5⟩ := h l hl
+  exact ⟨h1, fun _ => rfl, rfl, h4, h5⟩
+
 /-- T1.4 FULL statement wanted: one cost function of the text that counts every token taken from an iterator by any
 loop of the composed kernels, with a bound quadratic in the number of tokens (quadratic because each level of
 `@media` inside `@media` collects its block again). Proved — the pieces such a bound is made of:
@@ -180,6 +201,14 @@ theorem double_evaluation_is_exponential (d : Nat) :
   ⟨visits_chain_two d, fnCount_chain d⟩
 
 /-! non-vacuity / concrete instances -/
+-- `AgreeOn` is satisfiable: by the same oracle, and by two oracles that differ only off the token list
+example (O : Struct.Oracle) (ts : List Struct.Tok) : StructLocal.AgreeOn O O ts :=
+  fun _ _ => ⟨rfl, fun _ => rfl, rfl, fun _ _ => rfl, rfl⟩
+example (O : Struct.Oracle) (ts : List Struct.Tok) :
+    StructLocal.AgreeOn O { O with valueOk := fun l => if l.all (· ∈ ts) then O.valueOk l else !O.valueOk l } ts := by
+  intro l hl
+  have : l.all (· ∈ ts) = true := by simpa [StructLocal.Sub] using hl
+  exact ⟨by simp [this], fun _ => rfl, rfl, fun _ _ => rfl, rfl⟩
 -- the domains are inhabited by ordinary tokens, and the machines do answer both ways on them
 example : ParseAll.selDom ⟨.ident, [97]⟩ = true ∧ ParseAll.selDom ⟨.char, [62]⟩ = true := by decide
 example : ParseAll.selRun [] [⟨.ident, [97]⟩, ⟨.char, [62]⟩, ⟨.ident, [98]⟩] = .ok true := by decide
